@@ -51,6 +51,17 @@ var deepCases = []deepCase{
 	{"string-of-deep-array", "action", "ecmascript", deepArr + ` return {s: String(o).length};`},
 }
 
+// boundary cases: nesting around the depth a JSON decoder accepts (10000).  Whatever is
+// accepted must survive being written and read back inside the envelopes hosts use.
+func init() {
+	for _, n := range []int{9000, 9890, 9899, 9900, 9901, 9950, 9990, 9996, 9997, 9998, 9999, 10000, 10001, 10010} {
+		obj := fmt.Sprintf(`var o = {}; var c = o; for (var i = 0; i < %d; i++) { c.n = {}; c = c.n; }`, n-1)
+		deepCases = append(deepCases,
+			deepCase{fmt.Sprintf("boundary-return-%d", n), "boundary", "ecmascript", obj + ` return {deep: o};`},
+			deepCase{fmt.Sprintf("boundary-emit-%d", n), "boundary", "ecmascript", obj + ` _.out(o); return _.bindings;`})
+	}
+}
+
 type deepOutcome struct {
 	Returned bool   `json:"returned"`
 	Err      string `json:"err,omitempty"`
@@ -84,6 +95,38 @@ func DeepCase(name string) int {
 	}
 	src := &core.ActionSource{Interpreter: dc.Interp, Source: dc.Body}
 	switch dc.Position {
+	case "boundary":
+		spec := &core.Spec{Name: "deep", Nodes: map[string]*core.Node{"done": {},
+			"start": {ActionSource: src, Branches: &core.Branches{Type: "bindings", Branches: []*core.Branch{{Target: "done"}}}}}}
+		if err := spec.Compile(ctx, interpreters.Standard(), true); err != nil {
+			fmt.Println("compile:", err)
+			return 3
+		}
+		w, err := spec.Walk(ctx, &core.State{NodeName: "start", Bs: match.Bindings{"a": 1.0}}, nil, nil, nil)
+		out.Returned = true
+		if err != nil {
+			out.Err = short(err.Error())
+		}
+		if w != nil && w.To() != nil {
+			out.Node = w.To().NodeName
+			if s, ok := w.To().Bs["error"].(string); ok {
+				out.ErrText = short(s)
+			}
+			// what hosts do: the state inside a machine inside a crew file; the emitted
+			// messages inside a result - written, and read back
+			var emitted []interface{}
+			w.DoEmitted(func(x interface{}) error { emitted = append(emitted, x); return nil })
+			envelope := map[string]interface{}{"crew": map[string]interface{}{"machines": map[string]interface{}{"m": map[string]interface{}{"state": w.To()}}}, "result": map[string]interface{}{"emitted": []interface{}{emitted}}}
+			js, merr := json.Marshal(envelope)
+			if merr != nil {
+				out.Err = "state cannot be stored: " + short(merr.Error())
+			} else {
+				var back interface{}
+				if uerr := json.Unmarshal(js, &back); uerr != nil {
+					out.Err = "what was stored cannot be read back: " + short(uerr.Error())
+				}
+			}
+		}
 	case "action", "guard":
 		spec := &core.Spec{Name: "deep", Nodes: map[string]*core.Node{"done": {}, "other": {}}}
 		if dc.Position == "action" {
@@ -215,7 +258,20 @@ func deepPart(cfg fw.Config, rec *fw.Rec) {
 			rec.Bucket("deep_value_cases_survived")
 			switch {
 			case o.Err != "" && strings.Contains(o.Err, "cannot be"):
+				if dc.Position == "boundary" {
+					replay["levels"] = dc.Name
+				}
 				rec.Violation("C07:deep:unusable-result:"+dc.Name, "processing returned normally but handed the host something it cannot serialise: "+o.Err, replay)
+			case dc.Position == "boundary":
+				// accepted or refused - but if accepted it can be stored and read back (checked
+				// above), and if refused the failure is surfaced
+				if o.Node == "done" {
+					rec.Bucket("deep_value_boundary_accepted_and_storable")
+				} else if o.Node == "error" && o.ErrText != "" {
+					rec.Bucket("deep_value_boundary_refused")
+				} else {
+					rec.Violation("C07:deep:not-surfaced:"+dc.Name, fmt.Sprintf("node %q, error text %q, err %q", o.Node, o.ErrText, o.Err), replay)
+				}
 			case dc.Name == "string-of-deep-array":
 				// completes or fails; surviving is what matters
 			case o.Err == "" && (o.Node != "error" || o.ErrText == ""):
